@@ -157,17 +157,29 @@ impl<FlowController: OutgoingDataFlowController, Writer: FrameWriter>
             interval.set_len(window_len as usize);
         }
 
+        // the end of the range the flow controller allows us to send right now
+        let window_end = interval.end_exclusive();
+
         let packet_number = context.packet_number();
         let mut view = viewer.next_view(interval, matches!(state, State::Finishing(_)));
 
-        self.writer
+        if self
+            .writer
             .write_chunk(
                 interval.start_inclusive(),
                 &mut view,
                 writer_context,
                 context,
             )
-            .map_err(|_| OnTransmitError::CouldNotAcquireEnoughSpace)?;
+            .is_err()
+        {
+            // The flow controller reports being blocked as soon as the requested range
+            // exceeds its window, assuming the available part gets sent. Nothing was
+            // written to the packet, so that part is still available: stay interested in
+            // transmitting it instead of waiting for a window update that will never come.
+            self.clear_blocked_with_available_window();
+            return Err(OnTransmitError::CouldNotAcquireEnoughSpace);
+        }
 
         let len = view.len();
         debug_assert_ne!(len, 0u64, "cannot transmit an empty payload");
@@ -175,6 +187,11 @@ impl<FlowController: OutgoingDataFlowController, Writer: FrameWriter>
         interval.set_len(len.as_u64() as usize);
 
         debug_assert!(interval.is_valid());
+
+        if interval.end_exclusive() < window_end {
+            // the packet could not hold everything the flow controller allowed
+            self.clear_blocked_with_available_window();
+        }
 
         self.in_flight
             .insert(packet_number, interval.start_inclusive(), len);
@@ -187,6 +204,15 @@ impl<FlowController: OutgoingDataFlowController, Writer: FrameWriter>
         }
 
         Ok(interval)
+    }
+
+    /// Clears the blocked state of the flow controller if it was set by a request
+    /// that left some of the available window unused
+    #[inline]
+    fn clear_blocked_with_available_window(&mut self) {
+        if self.flow_controller.is_blocked() {
+            self.flow_controller.clear_blocked();
+        }
     }
 
     #[inline]
